@@ -9,6 +9,34 @@ BASELINE = "cd /repo && /venv/bin/python -m pytest -ra -q -p no:cacheprovider --
 
 # pid -> (category, technique, text, level_note, design_ref)
 P = {
+    "C05": (
+        "model_checking",
+        "complete enumeration of bounded bit-string / octet-string / error-pattern spaces on the real CRC engines and front ends vs. integer polynomial long division",
+        "Every length 0..128 (thorough 0..400) x {zero, ones, every unit vector, fills} x 5 widths x bitwise/table, all strings up to 12 (16) bits, all weight-2 strings, the same as little-endian bitarrays, all 2^w check values, all 5^3 call sequences on the shared calculator singletons, front ends over all masks / serial numbers, all 147,536 1-3 bit error patterns on 96-bit CCITT PDUs and all bursts <= CRC width at every position.",
+        "Bound: message contents are structured (basis + fills), front-end octet strings structured per length. Trusted: harness GF(2) long division and the transcription of ETSI B.3.7-B.3.12 (anchored on 10 captured on-air vectors).",
+        "DESIGN.md §3 C05",
+    ),
+    "C10": (
+        "model_checking",
+        "explicit exploration of the encoder's complete 8-state transition relation through the real functions + complete enumeration of the small maps + structured end-to-end blocks",
+        "All 64 (state, tribit) transitions, all (state, point) pairs at all 49 stream positions incl. every un-emittable point (must be refused), dibit/point bijections, the 98-position interleaver in both directions, point locality, then end-to-end blocks (every position x every tribit pair, weight <= 1 / 2 and complements, bits and bytes, big- and little-endian bitarrays).",
+        "Bound: not all 2^144 blocks; the step to 'all' rests on the complete state machine + bijections + locality, each enumerated completely. Rejection is an assert (python -O removes it).",
+        "DESIGN.md §3 C10",
+    ),
+    "C11": (
+        "model_checking",
+        "complete enumeration (all 65,536 multiplier pairs, single-symbol basis x 28 masks, all 1-symbol / bounded 2-3-symbol corruptions) on the real RS functions vs. a table-free GF(2^8) reference",
+        "Field multiply exhaustively; generate() on zero + all 9x255 single-symbol messages + pairs (additivity) under 28 masks: every word must have zero syndromes at alpha^1..3 in the harness's own GF(256) arithmetic, be accepted under its mask and rejected under all others; check() accepts exactly one parity triple (thorough: all 2^24); all 1-symbol, bounded-alphabet (thorough: all values) 2-symbol and 3-symbol corruptions are rejected.",
+        "Bound: messages via basis + additivity, not all 2^72; 3-symbol errors over a 12-value alphabet. Trusted: harness carry-less multiply mod 0x11D, generator roots alpha^1..alpha^3.",
+        "DESIGN.md §3 C11",
+    ),
+    "C19": (
+        "model_checking",
+        "explicit-state exploration of the interpreter-global library state: every ordered pair (and shared-state triple) of a 139-call catalogue executed in its own forked child of a pristine parent and compared with the fresh result",
+        "All ordered pairs (i,j) of the catalogue (every public codec family; explicit / default-argument / default-constructed-object variants) and all ordered triples over the ops touching shared state; the last call must return the digest it returns in a fresh interpreter state and every call's argument buffers are hashed before/after. Fresh digests are cross-checked against a brand-new interpreter, two interpreters with different fake dates, and two clock/randomness seam settings.",
+        "Bound: sequence length 3, the catalogue as alphabet. Trusted: fork of a pristine parent == fresh state (cross-checked), generic structural digest of results.",
+        "DESIGN.md §3 C19",
+    ),
     "C06": (
         "model_checking",
         "complete enumeration of all 2^k messages, all 2^n words, all single (16,11,4: double) errors on the real functions vs. polynomial-arithmetic reference codes",
